@@ -4,7 +4,7 @@ BASE = {
     "Method": '{"r0", "r1", "r2", "d0", "d1", "t0", "b0"}',
     "Arg": "{0, 1}",
     "HasDefault": "<-cHasDefault", "HasUnmock": "<-cHasUnmock", "PartialByDef": "<-cPartialByDef",
-    "RetOwned": "<-cRetOwned", "Required": "<-cRequired", "HasMutexApi": True, "HasStd": True,
+    "RetOwned": "<-cRetOwned", "Required": "<-cRequired", "HasMutexApi": True, "HasStd": True, "PoisonArg": 9, "PoisonSet": "<-cNoPoison",
     "StrictFam": "<-cStrictBoth", "ScriptFam": "<-cNoScripts", "UpFam": "<-cNoUp", "Vias": "<-cViaDrop",
     "EmitOn": True, "OnlyMentioned": True, "StopAfterDeviation": False, "PermOn": False, "MaxCalls": 3, "MaxLeaves": 2,
 }
@@ -85,5 +85,11 @@ PLANS = {
                                    Method='{"r0", "r1", "r2", "g8", "g16"}'), {"clones": 3, "twin": True}, None),
                      ("c18t4", inst(LeafFam="<-C18LeavesQ", MaxLeaves=4, MaxCalls=6, PermOn=True,
                                     Method='{"r0", "r1", "r2", "g8", "g16"}'), {"clones": 3, "twin": True}, {"num": 200000, "depth": 9})],
+    },
+    "C11": {
+        "quick": [("c11m", inst(LeafFam="<-C11Leaves", MaxLeaves=2, MaxCalls=3, PoisonSet="<-cPoison", UpFam="<-cUpBoth", StrictFam="<-cStrictOnly",
+                                Method='{"r0", "r1"}', Vias="<-cViaVerify"), {"clones": 1}, None)],
+        "thorough": [("c11mt", inst(LeafFam="<-C11Leaves", MaxLeaves=2, MaxCalls=4, PoisonSet="<-cPoison", UpFam="<-cUpBoth",
+                                    Method='{"r0", "r1"}', Vias="<-cViaAll"), {"clones": 2}, None)],
     },
 }
